@@ -42,6 +42,23 @@ var externalReadOnly = map[string]bool{
 	"(*container/list.List).Len": true, "(*container/list.List).Front": true, "(*container/list.List).Back": true,
 }
 
+// external types documented as safe for concurrent use (one line of reason each)
+var externalSafeTypes = map[string]string{
+	"github.com/DataDog/datadog-go/v5/statsd.Client": "datadog-go documents statsd.Client as safe for concurrent use by multiple goroutines",
+}
+
+func externalConcurrencySafe(t types.Type) bool {
+	if pt, ok := t.(*types.Pointer); ok {
+		t = pt.Elem()
+	}
+	nt, ok := t.(*types.Named)
+	if !ok || nt.Obj().Pkg() == nil {
+		return false
+	}
+	_, safe := externalSafeTypes[nt.Obj().Pkg().Path()+"."+nt.Obj().Name()]
+	return safe
+}
+
 // fieldPointerLoad: v is a load of a pointer/map/slice/interface-valued field; returns the field and base.
 func fieldPointerLoad(v ssa.Value) (FieldRef, ssa.Value, bool) {
 	v = strip(v, false)
@@ -188,8 +205,8 @@ func (p *Prog) Accesses(fn *ssa.Function) []FieldAccess {
 				}
 				// method call on an external (non-module, non-sync) object held in a field
 				if c.Static != nil && c.Recv != nil && !p.InModule(c.Static) {
-					if fr, base, ok := fieldPointerLoad(c.Recv); ok && !isSyncOrAtomicNamed(c.Recv.Type()) {
-						if _, isIface := c.Recv.Type().Underlying().(*types.Interface); !isIface {
+					if fr, base, ok := fieldPointerLoad(c.Recv); ok && !isSyncOrAtomicNamed(c.Recv.Type()) && !externalConcurrencySafe(c.Recv.Type()) {
+						if _, isPtr := c.Recv.Type().Underlying().(*types.Pointer); isPtr {
 							add(FieldAccess{Field: fr, Base: base, Write: !externalReadOnly[c.Name], Pointee: true, Instr: ins, Via: c.Name})
 						}
 					}
